@@ -48,7 +48,8 @@ class C01(Prop):
         full = {"clock": "datetime", "step": 10, "n_steps": 4, "pop": 12, "seed": 7, "crn_keys": 2, "map_size": 10000,
                 "births": [2, 0, 1], "mort": {"mods": 1}, "disease": {"states": 3, "p": [5, 8], "self": True},
                 "stepmod": {"every": 3, "mult": 2}, "obs": {"strats": 3, "concat": True}}
-        return [{"spec": full, "histories": self._histories(rng)}]
+        vary = dict(full, step=1, n_steps=9, pop=6, births=[1, 0], disease=None, obs=None, stepmod={"every": 2, "mult": 3, "vary": True})
+        return [{"spec": full, "histories": self._histories(rng)}, {"spec": vary, "histories": self._histories(rng)}]
 
     def generate(self, rng: random.Random, i: int, tier: str):
         return {"spec": enginekit.gen_spec(rng), "histories": self._histories(rng)}
